@@ -3,6 +3,7 @@
   Property theorems only; helper lemmas live in Gmars/Proofs.
 -/
 import Gmars.Proofs.Circ
+import Gmars.Proofs.SpecLocal
 
 namespace Gmars.Props.C11
 open Gmars Gmars.Spec
@@ -24,6 +25,25 @@ theorem folded_pointer_is_near (p L M pc : Nat) (hL : 0 < L) (hLM : L ≤ M) (hp
 
 /-- With a limit equal to the core size folding has no effect beyond reduction modulo M. -/
 theorem full_limit_is_no_limit (p M : Nat) : fold p M M = p % M := fold_full p M
+
+/-- `write_locality` (reference semantics): with a write limit W ≤ M, no task alters a cell
+    farther than ⌊W/2⌋ (around the circular core) from the instruction being executed — for every
+    instruction form, core content, core size and read limit. -/
+theorem write_locality (M R W : Nat) (c : Core) (pc : Nat) (hW : 0 < W) (hWM : W ≤ M) (hpc : pc < M) :
+    ∀ a, (step M R W c pc).core.at a ≠ c.at a → circDist M a pc ≤ W / 2 :=
+  Spec.write_locality M R W c pc hW hWM hpc
+
+/-- `read_locality` (reference semantics): every queued successor is PC+1, PC+2 or a jump/split
+    target within ⌊R/2⌋ of the executing instruction -/
+theorem read_locality (M R W : Nat) (c : Core) (pc : Nat) (hR : 0 < R) (hRM : R ≤ M) (hpc : pc < M) :
+    ∀ q ∈ (step M R W c pc).succ, q = (pc + 1) % M ∨ q = (pc + 2) % M ∨ circDist M q pc ≤ R / 2 :=
+  Spec.succ_near M R W c pc hR hRM hpc
+
+/-- the only cells a task can alter are the pre-decremented / post-incremented pointer cells and
+    the write target of a storing opcode, all reached through write-limit folds -/
+theorem changed_cells_are_write_targets (M R W : Nat) (c : Core) (pc : Nat) :
+    ∀ a, (step M R W c pc).core.at a ≠ c.at a → a ∈ mayTouch M R W c pc :=
+  Spec.step_changed_subset M R W c pc
 
 -- non-vacuity: M = 8000, L = 300, a pointer that folds backwards
 example : fold 250 300 8000 = 7950 ∧ circDist 8000 ((10 + fold 250 300 8000) % 8000) 10 = 50 := by decide
